@@ -64,7 +64,20 @@ Inductive req :=
 | QCreatePartitions (sid tid : ident) (n : N) | QDeletePartitions (sid tid : ident) (n : N)
 | QCreateStream (id : option N) (name : list byte)
 | QUpdateStream (sid : ident) (name : list byte)
-| QCreateGroup (sid tid : ident) (id : option N) (name : list byte).
+| QCreateGroup (sid tid : ident) (id : option N) (name : list byte)
+(* topics/{create,update}_topic.rs, users/{create_user,update_user,change_password,login_user}.rs,
+   messages/flush_unsaved_buffer.rs, system/get_client.rs, personal_access_tokens/*.rs *)
+| QCreateTopic (sid : ident) (id : option N) (parts comp expiry maxsize : N) (repl : option N) (name : list byte)
+| QUpdateTopic (sid tid : ident) (comp expiry maxsize : N) (repl : option N) (name : list byte)
+| QCreateUser (uname pw : list byte) (status : N)                      (* without a permissions record *)
+| QUpdateUser (uid : ident) (uname : option (list byte)) (status : option N)
+| QChangePassword (uid : ident) (cur new : list byte)
+| QLoginUser (uname pw : list byte) (version context : option (list byte))
+| QFlush (sid tid : ident) (part : N) (fsync : bool)
+| QGetClient (id : N)
+| QCreatePat (name : list byte) (expiry : N)
+| QDeletePat (name : list byte)
+| QLoginPat (token : list byte).
 
 Definition code_of (q : req) : N :=
   match q with
@@ -75,9 +88,22 @@ Definition code_of (q : req) : N :=
   | QGetGroup _ _ _ => 600 | QDeleteGroup _ _ _ => 603 | QJoinGroup _ _ _ => 604 | QLeaveGroup _ _ _ => 605
   | QCreatePartitions _ _ _ => 402 | QDeletePartitions _ _ _ => 403
   | QCreateStream _ _ => 202 | QUpdateStream _ _ => 204 | QCreateGroup _ _ _ _ => 602
+  | QCreateTopic _ _ _ _ _ _ _ _ => 302 | QUpdateTopic _ _ _ _ _ _ _ => 304
+  | QCreateUser _ _ _ => 33 | QUpdateUser _ _ _ => 35 | QChangePassword _ _ _ => 37 | QLoginUser _ _ _ _ => 38
+  | QFlush _ _ _ _ => 102 | QGetClient _ => 21 | QCreatePat _ _ => 42 | QDeletePat _ => 43 | QLoginPat _ => 44
   end.
 
 Definition bool_byte (b : bool) : list byte := [n2b (if b then 1 else 0)].
+
+(* optional u8: 0 on the wire means None *)
+Definition enc_opt8 (o : option N) : list byte := [n2b (match o with Some v => v | None => 0 end)].
+(* optional string with a 4-byte length: length 0 means None *)
+Definition enc_ostr32 (o : option (list byte)) : list byte :=
+  match o with Some s => le_enc 4 (nlen s) ++ s | None => le_enc 4 0 end.
+Definition postr32 : parser (option (list byte)) :=
+  l <- pu 4 ;; (if l =? 0 then ret None else (s <- pbytes l ;; if ascii s then ret (Some s) else pfail)).
+Definition comp_ok (c : N) : bool := (c =? 1) || (c =? 2).      (* CompressionAlgorithm::from_code *)
+Definition status_ok (c : N) : bool := (c =? 1) || (c =? 2).    (* UserStatus::from_code *)
 
 Definition enc_req (q : req) : list byte :=
   match q with
@@ -92,6 +118,19 @@ Definition enc_req (q : req) : list byte :=
   | QCreateStream id name => enc_opt32 id ++ enc_name name
   | QUpdateStream s name => enc_ident s ++ enc_name name
   | QCreateGroup s t id name => enc_ident s ++ enc_ident t ++ enc_opt32 id ++ enc_name name
+  | QCreateTopic s id n c e m r name =>
+      enc_ident s ++ enc_opt32 id ++ le_enc 4 n ++ [n2b c] ++ le_enc 8 e ++ le_enc 8 m ++ enc_opt8 r ++ enc_name name
+  | QUpdateTopic s t c e m r name => enc_ident s ++ enc_ident t ++ [n2b c] ++ le_enc 8 e ++ le_enc 8 m ++ enc_opt8 r ++ enc_name name
+  | QCreateUser u p st => enc_name u ++ enc_name p ++ [n2b st] ++ [n2b 0]
+  | QUpdateUser i u st =>
+      enc_ident i ++ (match u with Some s => [n2b 1] ++ enc_name s | None => [n2b 0] end) ++
+      (match st with Some v => [n2b 1; n2b v] | None => [n2b 0] end)
+  | QChangePassword i c n => enc_ident i ++ enc_name c ++ enc_name n
+  | QLoginUser u p v c => enc_name u ++ enc_name p ++ enc_ostr32 v ++ enc_ostr32 c
+  | QFlush s t p f => enc_ident s ++ enc_ident t ++ le_enc 4 p ++ bool_byte f
+  | QGetClient i => le_enc 4 i
+  | QCreatePat n e => enc_name n ++ le_enc 8 e
+  | QDeletePat n | QLoginPat n => enc_name n
   end.
 
 (* the decoders' minimum-length guards (the shortest valid encoding of each request) *)
@@ -103,6 +142,7 @@ Definition guard (code : N) : N :=
   | 600 | 603 | 604 | 605 => 9
   | 402 | 403 => 10
   | 202 => 6 | 204 => 5 | 602 => 10
+  | 302 => 18 | 304 => 21 | 33 => 10 | 35 => 5 | 37 => 9 | 38 => 4 | 21 => 4 | 42 => 12 | 43 | 44 => 4
   | _ => 0
   end.
 
@@ -138,6 +178,26 @@ Definition dec_req (code : N) (bs : list byte) : option req :=
   | 202 => finish (i <- popt32 ;; n <- pname ;; ret (QCreateStream i n)) bs
   | 204 => finish (s <- pident ;; n <- pname ;; ret (QUpdateStream s n)) bs
   | 602 => finish (s <- pident ;; t <- pident ;; i <- popt32 ;; n <- pname ;; ret (QCreateGroup s t i n)) bs
+  | 302 => finish (s <- pident ;; i <- popt32 ;; n <- pu 4 ;; c <- pu 1 ;; e <- pu 8 ;; m <- pu 8 ;; r <- pu 1 ;; nm <- pname ;;
+                   if comp_ok c then ret (QCreateTopic s i n c e m (if r =? 0 then None else Some r) nm) else pfail) bs
+  | 304 => finish (s <- pident ;; t <- pident ;; c <- pu 1 ;; e <- pu 8 ;; m <- pu 8 ;; r <- pu 1 ;; nm <- pname ;;
+                   if comp_ok c then ret (QUpdateTopic s t c e m (if r =? 0 then None else Some r) nm) else pfail) bs
+  | 33 => finish (u <- pname ;; p <- pname ;; st <- pu 1 ;; hp <- pu 1 ;;
+                  if status_ok st && (hp =? 0) then ret (QCreateUser u p st) else pfail) bs
+  | 35 => finish (i <- pident ;; hu <- pu 1 ;;
+                  if 1 <? hu then pfail
+                  else (un <- (if hu =? 1 then (s <- pname ;; ret (Some s)) else ret None) ;;
+                        hs <- pu 1 ;;
+                        if 1 <? hs then pfail
+                        else if hs =? 1 then (st <- pu 1 ;; if status_ok st then ret (QUpdateUser i un (Some st)) else pfail)
+                        else ret (QUpdateUser i un None))) bs
+  | 37 => finish (i <- pident ;; c <- pname ;; n <- pname ;; ret (QChangePassword i c n)) bs
+  | 38 => finish (u <- pname ;; p <- pname ;; v <- postr32 ;; c <- postr32 ;; ret (QLoginUser u p v c)) bs
+  | 102 => finish (s <- pident ;; t <- pident ;; p <- pu 4 ;; f <- pu 1 ;; ret (QFlush s t p (f =? 1))) bs
+  | 21 => if nlen bs =? 4 then finish (i <- pu 4 ;; ret (QGetClient i)) bs else None      (* exactly four bytes *)
+  | 42 => finish (n <- pname ;; e <- pu 8 ;; ret (QCreatePat n e)) bs
+  | 43 => finish (n <- pname ;; ret (QDeletePat n)) bs
+  | 44 => finish (n <- pname ;; ret (QLoginPat n)) bs
   | _ => None
   end.
 
@@ -145,6 +205,10 @@ Definition dec_req (code : N) (bs : list byte) : option req :=
 Definition wf_opt (o : option N) : Prop := match o with Some v => 0 < v < 256 ^ 4 | None => True end.
 Definition wf_name (s : list byte) : Prop := 1 <= nlen s <= 255 /\ ascii s = true.
 Definition wf_consumer (c : consumer) : Prop := wf_ident (snd c).
+Definition wf_opt8 (o : option N) : Prop := match o with Some v => 0 < v < 256 | None => True end.
+(* user names, passwords, token names: at least three characters (what the SDK's validators admit; the decoders' guards rely on it) *)
+Definition wf_name3 (s : list byte) : Prop := 3 <= nlen s <= 255 /\ ascii s = true.
+Definition wf_ostr (o : option (list byte)) : Prop := match o with Some s => 1 <= nlen s < 256 ^ 4 /\ ascii s = true | None => True end.
 Definition wf_req (q : req) : Prop :=
   match q with
   | QPoll c s t p k v n _ => wf_consumer c /\ wf_ident s /\ wf_ident t /\ wf_opt p /\ polling_kind_ok k = true /\ v < 256 ^ 8 /\ n < 256 ^ 4
@@ -157,6 +221,18 @@ Definition wf_req (q : req) : Prop :=
   | QCreateStream i n => wf_opt i /\ wf_name n
   | QUpdateStream s n => wf_ident s /\ wf_name n
   | QCreateGroup s t i n => wf_ident s /\ wf_ident t /\ wf_opt i /\ wf_name n
+  | QCreateTopic s i n c e m r nm =>
+      wf_ident s /\ wf_opt i /\ n < 256 ^ 4 /\ comp_ok c = true /\ e < 256 ^ 8 /\ m < 256 ^ 8 /\ wf_opt8 r /\ wf_name nm
+  | QUpdateTopic s t c e m r nm => wf_ident s /\ wf_ident t /\ comp_ok c = true /\ e < 256 ^ 8 /\ m < 256 ^ 8 /\ wf_opt8 r /\ wf_name nm
+  | QCreateUser u p st => wf_name3 u /\ wf_name3 p /\ status_ok st = true
+  | QUpdateUser i u st => wf_ident i /\ match u with Some s => wf_name s | None => True end /\
+                          match st with Some v => status_ok v = true | None => True end
+  | QChangePassword i c n => wf_ident i /\ wf_name3 c /\ wf_name3 n
+  | QLoginUser u p v c => wf_name u /\ wf_name p /\ wf_ostr v /\ wf_ostr c
+  | QFlush s t p _ => wf_ident s /\ wf_ident t /\ p < 256 ^ 4
+  | QGetClient i => i < 256 ^ 4
+  | QCreatePat n e => wf_name3 n /\ e < 256 ^ 8
+  | QDeletePat n | QLoginPat n => wf_name3 n
   end.
 
 (* rendering for the correspondence check *)
